@@ -812,17 +812,18 @@ func c13NMCases(c *Ctx, n int) {
 
 func runC13(c *Ctx) {
 	c13FindingF23(c)
+	c13EndToEnd(c)
 	// the streams whose cases cost most to evaluate come first, so that their shards start in the
 	// first wave of the parallel evaluation
-	c13ConvCases(c, c.Budget(260, 10000))
-	c13SessionCases(c, c.Budget(260, 8000))
-	c13A2LNMCases(c, c.Budget(260, 10000))
-	c13NMCases(c, c.Budget(260, 8000))
-	c13LoaderCases(c, c.Budget(1700, 60000))
-	c13GetBaseCases(c, c.Budget(400, 10000))
-	c13PHMCases(c, c.Budget(400, 15000))
-	c13HFFOCases(c, c.Budget(300, 6000))
-	c13ObjAddrMisc(c, c.Budget(300, 10000))
+	c13ConvCases(c, c.Budget(220, 10000))
+	c13SessionCases(c, c.Budget(200, 8000))
+	c13A2LNMCases(c, c.Budget(220, 10000))
+	c13NMCases(c, c.Budget(220, 8000))
+	c13LoaderCases(c, c.Budget(1100, 60000))
+	c13GetBaseCases(c, c.Budget(250, 10000))
+	c13PHMCases(c, c.Budget(300, 15000))
+	c13HFFOCases(c, c.Budget(200, 6000))
+	c13ObjAddrMisc(c, c.Budget(250, 10000))
 	c13ToolCases(c, c.Budget(150, 3000))
 	if c.Tier == "thorough" {
 		c13RealBinaries(c)
